@@ -5,6 +5,7 @@ import (
 	"encoding/json"
 	"flag"
 	"fmt"
+	"io"
 	"math/rand"
 	"os"
 	"strings"
@@ -30,7 +31,43 @@ func fmtName(f formats.Format) string {
 	return string(f)
 }
 
-const foptKey = "verif-key"
+// recDriver is a reader and writer driver that records the options each call hands to it.
+type recDriver struct{ got map[string]any }
+
+func (d *recDriver) Unserialize(_ io.Reader, _ *native.UnserializeOptions, fo interface{}) (*sbom.Document, error) {
+	d.got = map[string]any{"fopt": foptString(fo)}
+	return tinyDoc(), nil
+}
+
+func (d *recDriver) Serialize(_ *sbom.Document, _ *native.SerializeOptions, fo interface{}) (interface{}, error) {
+	d.got = map[string]any{"fopt": foptString(fo)}
+	return "native", nil
+}
+
+func (d *recDriver) Render(_ interface{}, w io.Writer, ro *native.RenderOptions, fo interface{}) error {
+	d.got["renderfopt"] = foptString(fo)
+	d.got["indent"] = "nil"
+	if ro != nil {
+		d.got["indent"] = fmt.Sprint(ro.Indent)
+	}
+	_, err := w.Write([]byte("{}"))
+	return err
+}
+
+func foptString(fo interface{}) string {
+	if fo == nil {
+		return ""
+	}
+	if s, ok := fo.(string); ok {
+		return s
+	}
+	return fmt.Sprintf("%v", fo)
+}
+
+const recFormat = formats.Format("application/x-verif-recording+json;version=1.0")
+
+// format options are looked up under the driver's type name: the instance-level option uses the same key
+var foptKey = fmt.Sprintf("%T", &recDriver{})
 
 func writerCfg(w *writer.Writer) map[string]any {
 	o := w.Options
@@ -115,6 +152,12 @@ func configRun(args []string) error {
 		return err
 	}
 	defer os.RemoveAll(tmp)
+
+	rec := &recDriver{}
+	reader.RegisterUnserializer(recFormat, rec)
+	writer.RegisterSerializer(recFormat, rec)
+	defer reader.UnregisterUnserializer(recFormat)
+	defer writer.UnregisterSerializer(recFormat)
 
 	var ws []*writer.Writer
 	var rs []*reader.Reader
@@ -233,6 +276,43 @@ func configRun(args []string) error {
 			default:
 				ev["got"] = "ok"
 			}
+		case "ParseCall":
+			// options given to one parse call (format options for the driver) must reach the driver for that call
+			i := integer(ev, "i") - 1
+			if i < 0 || i >= len(rs) {
+				return
+			}
+			o := &reader.Options{Format: recFormat, UnserializeOptions: &native.UnserializeOptions{}}
+			if v := str(ev, "callfopt"); v != "" {
+				o.SetFormatOptions(rec, v)
+			}
+			rec.got = nil
+			if _, err := rs[i].ParseStreamWithOptions(bytes.NewReader([]byte("{}")), o); err != nil || rec.got == nil {
+				ev["gotfopt"] = "error"
+			} else {
+				ev["gotfopt"] = rec.got["fopt"]
+			}
+		case "WriteCall":
+			i := integer(ev, "i") - 1
+			if i < 0 || i >= len(ws) {
+				return
+			}
+			o := &writer.Options{Format: recFormat}
+			if v := str(ev, "callfopt"); v != "" {
+				o.SetFormatOptions(rec, v)
+			}
+			if v := str(ev, "callindent"); v != "" {
+				var k int
+				fmt.Sscan(v, &k)
+				o.RenderOptions = &native.RenderOptions{Indent: k}
+			}
+			rec.got = nil
+			var buf bytes.Buffer
+			if err := ws[i].WriteStreamWithOptions(tinyDoc(), nopCloser{&buf}, o); err != nil || rec.got == nil {
+				ev["gotfopt"], ev["gotrenderfopt"], ev["gotindent"] = "error", "error", "error"
+			} else {
+				ev["gotfopt"], ev["gotrenderfopt"], ev["gotindent"] = rec.got["fopt"], rec.got["renderfopt"], rec.got["indent"]
+			}
 		case "StoreNoClobber":
 			i := integer(ev, "i") - 1
 			if i < 0 || i >= len(ws) {
@@ -298,7 +378,16 @@ func configRun(args []string) error {
 		exec(map[string]any{"op": "Reset", "sid": sid})
 		nw, nr := 0, 0
 		for j := 0; j < *length; j++ {
-			switch k := r.Intn(10); {
+			switch k := r.Intn(12); {
+			case k == 10 && nr > 0:
+				exec(map[string]any{"op": "ParseCall", "sid": sid, "i": 1 + r.Intn(nr), "callfopt": pick(r, []string{"", "c1", "c2"})})
+			case k == 11 && nw > 0:
+				exec(map[string]any{"op": "WriteCall", "sid": sid, "i": 1 + r.Intn(nw), "callfopt": pick(r, []string{"", "c1", "c2"}),
+					"callindent": pick(r, []string{"", "3"})})
+			case k >= 10:
+				o, order := subset(rvals)
+				exec(map[string]any{"op": "NewReader", "sid": sid, "opts": o, "order": order})
+				nr++
 			case k == 8 && nw > 0:
 				exec(map[string]any{"op": "WriteShared", "sid": sid, "i": 1 + r.Intn(nw)})
 			case k == 9 && nw > 0:
